@@ -7,7 +7,8 @@
 
    Two places where the model is an abstraction of the code rather than a transcription:
    - `reader.buf()[i]` for an index the code has just peeked is written as a peek at i (it is
-     buffered, the peek performs no read);
+     buffered, the peek performs no read); in binary_uint, `buf[..byte_len]` and `buf()[byte_len - 1]`
+     are the bytes the first loop's peeks returned (the list acc, last byte first);
    - the read-to-end loop `while request_byte_at_offset(buf_len()).is_some() {}` of
      remaining_file_content is written as peeks at 0, 1, 2, ... until one comes back empty: both
      perform request_more() exactly once per refill until the reader is complete, so they drive the
@@ -206,18 +207,26 @@ Fixpoint varint_value (rev_bytes : bytes) (value : N) : option N :=
       let next_value := (value * 128) mod W64 in
       if next_value / 128 =? value then varint_value r (N.lor next_value (N.land b 127)) else None
   end.
-Definition binary_uint : PM (result N perr) :=
+(* the value, and `reader.buf()[byte_len - 1] == b'\n'`: whether the last byte of the encoding (the head of the
+   reversed list) is a line feed *)
+Definition binary_uint : PM (result (N * bool) perr) :=
   let? acc := varint_scan 8 0 [] in
   match varint_value acc 0 with
   | None => fail_with give_up
-  | Some v => padvance (nlen acc) ;;;; pret (Ok v)
+  | Some v =>
+      let ends_line := is_byte (hd_error acc) 10 in
+      padvance (nlen acc) ;;;; pret (Ok (v, ends_line))
   end.
 
-(* token::delta_code *)
+(* token::delta_code: a line feed that ends the code is a line break, recorded once the delta has passed its
+   range check (the range error is reported at the mark, on the line where the code starts) *)
 Definition delta_code (code : N) : PM (result N perr) :=
   pset_mark ;;;;
-  let? delta := binary_uint in
-  if code <? delta then fail_with give_up_at_mark else pret (Ok (code - delta)).
+  let? r := binary_uint in
+  let '(delta, ends_line) := r in
+  if code <? delta then fail_with give_up_at_mark else
+  (if ends_line then line_at_offset 0 else pret tt) ;;;;
+  pret (Ok (code - delta)).
 
 (* token::remaining_line_content *)
 Fixpoint line_scan (n : nat) (offset : N) (acc : bytes) : PM (bytes * N) :=
